@@ -128,7 +128,7 @@ def run(ctx, f, rep):
     else:
         nreg = 0
         window = 0
-        for p in pathq.paths(f, co, max_visits=2):
+        for p in pathq.paths(f, co, max_visits=2, inline_async=True):
             if p.end != "return":
                 continue
             tab = [(i, e) for i, e in pathq.calls(p, "upsert_async", "upsert_sync", "insert_async", "insert_sync") if "scc::" in e.name]
@@ -248,7 +248,7 @@ def run(ctx, f, rep):
     rep.floor("R13.3", "broadcast loop (the async fn taking the message type)", len(ps), 1)
     for b in ps:
         nfail = nwalk = 0
-        for p in pathq.paths(f, b, max_visits=2):
+        for p in pathq.paths(f, b, max_visits=2, inline_async=True):
             its = [(i, ev) for i, ev in pathq.calls(p, "begin_async", "next_async")]
             sends = wire_writes(p)
             for i, ev in sends:
